@@ -748,8 +748,10 @@ func (s *Server) cmdSearch(msg *Message) (res resp.Value, err error) {
 	}
 	var ierr error
 	if sw.col != nil {
-		if sw.output == outputCount && len(sw.wheres) == 0 && sw.globEverything {
-			count := sw.col.Count() - int(sargs.cursor)
+		if sw.output == outputCount && len(sw.wheres) == 0 &&
+			len(sw.whereins) == 0 && len(sw.whereevals) == 0 &&
+			sw.globEverything {
+			count := sw.col.StringCount() - int(sargs.cursor)
 			if count < 0 {
 				count = 0
 			}
